@@ -173,6 +173,13 @@ class InitVersions(Unit):
 
 
 # ------------------------------------------------------------------------------------------
+def OTHER_EXCEPTIONS():
+    import socket
+    return [ValueError('x'), OSError(113, 'No route to host'), ConnectionRefusedError(111, 'Connection refused'),
+            ConnectionResetError(104, 'Connection reset by peer'), BrokenPipeError(32, 'Broken pipe'), socket.timeout('timed out'),
+            KeyError('k'), RuntimeError('r'), IOError('io')]
+
+
 class Negotiate(Unit):
     prop = 'C09'
     name = 'C09.negotiate'
@@ -203,7 +210,11 @@ class Negotiate(Unit):
             if kind == 'eof':
                 ret = I.call(I.getattr_(r, 'handle_exception'), EOFError('x'), None)
             elif kind == 'other-exception':
-                ret = I.call(I.getattr_(r, 'handle_exception'), ValueError('x'), None)
+                # "only when ... the server closes without replying": every exception other than the end of stream - a
+                # refused or reset re-connection, a timeout, a malformed reply - must stay an error (seeded change C09-r10:
+                # ConnectionError swallowed, the login then silently uses the default version)
+                others = OTHER_EXCEPTIONS()
+                ret = I.call(I.getattr_(r, 'handle_exception'), others[E.fork(len(others), 'which-exception')], None)
             else:
                 status = {'empty': {}, 'no-version': {'description': 'x'}, 'no-protocol': {'version': {'name': name}},
                           'protocol': {'version': {'protocol': proto}},
@@ -260,10 +271,17 @@ class Negotiate(Unit):
         return None
 
     def replay(self, model, label):
+        if label.startswith('eof.other'):
+            rp = replay_other_exceptions()
+            if rp['confirmed']:
+                return rp
         return replay_negotiate(int(model.get('proto', 0)))
 
     def bounded(self, rng, tier):
-        fails, cnt = [], 0
+        fails, cnt = [], len(OTHER_EXCEPTIONS())
+        rp = replay_other_exceptions()
+        if rp['confirmed']:
+            fails.append(dict(call=rp['call'], observed=rp['observed'], witness='other-exception-swallowed'))
         for proto in list(minecraft.KNOWN_PROTOCOL_VERSIONS)[::3] + [-5, 0, 758, 10 ** 6]:
             cnt += 1
             rp = replay_negotiate(proto)
@@ -272,6 +290,23 @@ class Negotiate(Unit):
                 break
         return dict(name='C09.negotiate.numbers', evaluations=cnt, failures=fails,
                     bound='every third known protocol number + unknown numbers x 3 allowed sets')
+
+
+def replay_other_exceptions():
+    for exc in OTHER_EXCEPTIONS():
+        conn = native_connection()
+        conn.allowed_proto_versions, conn.default_proto_version = {340, 47}, 340
+        ev = []
+        conn.connect = lambda: ev.append('connect')
+        conn.disconnect = lambda immediate=False: ev.append('disconnect')
+        r = object.__new__(PlayingStatusReactor)
+        r.connection = conn
+        k, v = native_call(r.handle_exception, exc, None)
+        if k != 'ok' or v or ev:
+            return dict(confirmed=True, call='PlayingStatusReactor.handle_exception(%r)' % (exc,),
+                        observed='%s %r, events %r: the exception is treated as "no reply" and the login falls back to the '
+                                 'default version' % (k, v, ev))
+    return dict(confirmed=False, call='handle_exception over %d kinds of exception' % len(OTHER_EXCEPTIONS()), observed='none swallowed')
 
 
 def replay_negotiate(proto):
